@@ -214,15 +214,11 @@ class parameters:
                     self.parameters[name] = vf
                     continue
                     
-                # here if float and int worked
-                # should not be needed, depends on int valueerror
-                if abs(vi - vf) < 1e-9:
-                    # use int
-                    self.parameters[name] = vi
-                    continue
-                else:
-                    self.parameters[name] = vf
-                    continue
+                # here if float and int worked: the string is an integer literal.
+                # use int (comparing vi with vf overflows for integers beyond
+                # the float range)
+                self.parameters[name] = vi
+                continue
             else:
                 # int/float preserve type
                 self.parameters[name] = value
